@@ -430,7 +430,17 @@ fn strategy(_t: Tier) -> BoxedStrategy<Case> {
         .prop_flat_map(|(kind, n, k, (a, x, o))| {
             // ESOP is solved up to n = 3 only (its model is much harder for the solver)
             let n = if kind == Kind::Esop { std::cmp::min(n, 3) } else { n };
-            vec(arb_tt(n), k).prop_map(move |fs| Case { kind, fs, and_cost: a, xor_cost: x, or_cost: o })
+            (vec(arb_tt(n), k), vec(0u8..4, k)).prop_map(move |(mut fs, rel)| {
+                // a member is sometimes a copy or the complement of an earlier member
+                for i in 1..fs.len() {
+                    match rel[i] {
+                        0 => fs[i] = fs[i - 1].clone(),
+                        1 => fs[i] = fs[0].not(),
+                        _ => {}
+                    }
+                }
+                Case { kind, fs, and_cost: a, xor_cost: x, or_cost: o }
+            })
         })
         .boxed()
 }
@@ -452,6 +462,19 @@ fn enumerate(t: Tier, shard: usize, nshards: usize, f: &mut dyn FnMut(Case) -> b
                 }
             }
         }
+        // the same function twice, n = 3 (every 4th function in quick, all in thorough)
+        {
+            let stride = t.pick(4u64, 1);
+            let mut x = 0u64;
+            while x < 256 {
+                let (a, xc, o) = triples[(x as usize / 3) % triples.len()];
+                let ft = Tt::from_words(3, vec![x]);
+                if sc.mine() && !f(Case { kind, fs: vec![ft.clone(), ft], and_cost: a, xor_cost: xc, or_cost: o }) {
+                    return;
+                }
+                x += stride;
+            }
+        }
         // all ordered pairs
         for n in 0..=t.pick(1usize, 2) {
             let count = 1u64 << (1u32 << n);
@@ -470,7 +493,7 @@ fn enumerate(t: Tier, shard: usize, nshards: usize, f: &mut dyn FnMut(Case) -> b
 pub fn def() -> PropDef {
     PropDef {
         id: "C18",
-        rule: "cases = (optimizer in {optimize_sop_mip, optimize_sopes_mip, optimize_esop_mip}, list of 1..3 functions of one n, gate costs (and, xor, or) in {1,2,3}^3). Oracle: (1) validity — one form per input; the cubes()/terms read back through pos_vars()/neg_vars()/vars() and Lut::from(form) denote exactly f_j; every Sop cube and Soes term is an implicant; (2) the cost of the returned forms recomputed by the harness under the documented model: gates of the DISTINCT cubes (and XOR terms) over all outputs x and/xor cost + per output (terms-1)+ x or (ESOP: xor) cost; (3) the exact optimum from the harness's own dynamic programme over all 3^n cubes (plus all 2^(n+1) XOR terms for SOPES): per-output covered set (SOP/SOPES) or XOR residual (ESOP) as state, each candidate decided once for a subset of outputs, its gates paid once — affordable for one output up to n=4 and 2..3 outputs up to n=2 (2 outputs: n=3); beyond that only `cost <= sum of the single-output optima` is asserted (sound, incomplete; labelled upper-bound-only). Violation = invalid form, or cost above the optimum / bound. Exhaustive: all single functions n<=2 (quick) / n<=3 (thorough) and all ordered pairs n<=1 / n<=2, cost triples rotating over 5 fixed ones; generated lists of 1..3 functions, n<=4 (ESOP n<=3), all 27 cost triples. Non-trivial = some output needs >= 2 terms, or sharing between outputs lowers the optimum.",
+        rule: "cases = (optimizer in {optimize_sop_mip, optimize_sopes_mip, optimize_esop_mip}, list of 1..3 functions of one n, gate costs (and, xor, or) in {1,2,3}^3). Oracle: (1) validity — one form per input; the cubes()/terms read back through pos_vars()/neg_vars()/vars() and Lut::from(form) denote exactly f_j; every Sop cube and Soes term is an implicant; (2) the cost of the returned forms recomputed by the harness under the documented model: gates of the DISTINCT cubes (and XOR terms) over all outputs x and/xor cost + per output (terms-1)+ x or (ESOP: xor) cost; (3) the exact optimum from the harness's own dynamic programme over all 3^n cubes (plus all 2^(n+1) XOR terms for SOPES): per-output covered set (SOP/SOPES) or XOR residual (ESOP) as state, each candidate decided once for a subset of outputs, its gates paid once — affordable for one output up to n=4 and 2..3 outputs up to n=2 (2 outputs: n=3); beyond that only `cost <= sum of the single-output optima` is asserted (sound, incomplete; labelled upper-bound-only). Violation = invalid form, or cost above the optimum / bound. Exhaustive: all single functions n<=2 (quick) / n<=3 (thorough), all ordered pairs n<=1 / n<=2, the pair (f, f) for every 4th (quick) / every (thorough) function of 3 variables, cost triples rotating over 5 fixed ones; generated lists of 1..3 functions, n<=4 (ESOP n<=3), all 27 cost triples. Non-trivial = some output needs >= 2 terms, or sharing between outputs lowers the optimum.",
         assumptions: vec![
             "empty function lists and costs < 1 are outside the quantifier (the optimizers assert costs >= 1)",
             "HiGHS is trusted to terminate; a solver failure shows as a panic of the optimizer and is reported as such",
